@@ -174,6 +174,7 @@ def monitor(case, line):
     in_try = None
     in_cb = False
     nested = set()
+    nested_ok_this_step = False
     left_at_shut = []
 
     def outstanding_bytes():
@@ -191,6 +192,8 @@ def monitor(case, line):
         elif k == "r":
             i, c = a.split(":"); i, c = int(i), int(c)
             ret[i] = c
+            if c == 0 and i in nested:
+                nested_ok_this_step = True
             if shut_ok_at is not None and c not in (EPIPE, EBADF):
                 return (None, "uv_write after uv_shutdown returned %d, not UV_EPIPE" % c)
             if c != 0 and acc[i] != 0:
@@ -246,6 +249,7 @@ def monitor(case, line):
                 return (None, "write_queue_size is %d inside the callback of %d, unsent bytes of pending requests: %d" % (q, i, exp))
         elif k == "q":
             in_cb = False
+            nested_ok_this_step = False
             exp = outstanding_bytes()
             if int(a) != exp:
                 return (None, "write_queue_size is %d, unsent bytes of pending requests: %d" % (int(a), exp))
@@ -259,9 +263,10 @@ def monitor(case, line):
         elif k == "B":
             early = [i for i in total if ret.get(i) == 0 and i not in cbs and i not in is_try]
             in_cb = True
-            if early and all(i in nested for i in early):
-                known = (KNOWN_SHUT, "shutdown callback ran before the callback of earlier write(s) %s "
-                                     "submitted from inside a write callback" % early)
+            if early and nested_ok_this_step:
+                known = (KNOWN_SHUT, "shutdown callback ran before the callback of earlier write(s) %s that were "
+                                     "completed while write callbacks were running (uv_write from inside a write "
+                                     "callback)" % early)
             elif early:
                 return (None, "shutdown callback ran before the callback of earlier write(s) %s" % early)
         elif k == "e":
@@ -396,7 +401,7 @@ def main():
     cpath = os.path.join(vf.VERIF, "corpus", "C05", "cases.txt")
     corpus = [l.rstrip("\n") for l in open(cpath) if l.strip() and not l.startswith("#")] \
         if os.path.exists(cpath) else []
-    n = 12000 if thorough else 1400
+    n = 40000 if thorough else 6000
     gen = [gen_case(chk.rng) for _ in range(n)]
     cases = FIXED + corpus + gen
     a = run_mode(chk, "stream.c write path = Model/StreamWrite.v (unix socketpair via uv_pipe_open)",
@@ -405,7 +410,7 @@ def main():
         chk.sample({"case": gen[0][:300], "impl": a[len(FIXED) + len(corpus)][:300]})
         chk.cov["write_callbacks_observed"] = sum(l.split(";")[0].count(" b") for l in a)
         chk.cov["syscall_answers_logged"] = sum(len(l.split(";")[1].split()) for l in a if l.count(";") == 3)
-    tcases = FIXED + corpus + gen[: (3000 if thorough else 300)]
+    tcases = FIXED + corpus + gen[: (8000 if thorough else 1200)]
     run_mode(chk, "stream.c write path = Model/StreamWrite.v (tcp loopback via uv_tcp_open)",
              [hs, "tcp"], model, tcases)
 
